@@ -43,10 +43,19 @@ func isMacroDefinition(node ast.Node) bool {
 }
 
 func addMacro(s *object.Environment, stmt ast.Node) {
-	// TODO ok checks
-	assign, _ := stmt.(*ast.InfixExpression)
-	macroLiteral, _ := assign.Right.(*ast.MacroLiteral)
-	name := assign.Left.(*ast.Identifier).Literal()
+	assign, ok := stmt.(*ast.InfixExpression)
+	if !ok {
+		return
+	}
+	macroLiteral, ok := assign.Right.(*ast.MacroLiteral)
+	if !ok {
+		return
+	}
+	id, ok := assign.Left.(*ast.Identifier)
+	if !ok {
+		return
+	}
+	name := id.Literal()
 
 	macro := &object.Macro{
 		Parameters: macroLiteral.Parameters,
